@@ -341,6 +341,11 @@ func randModelGlyph(r *rng) *mGlyph {
 		}
 	}
 	pt := func() mPoint { return mPoint{coord(), coord()} }
+	if r.chance(1, 25) {
+		// a glyph tens of millions of units from the origin, on a grid of halves (numerators of p/q beyond 2^31 / 107)
+		base := pick(r, []int{60000001, -60000001, 40139889, 42949673, -45000003})
+		pt = func() mPoint { return mPoint{rat2{base + 2*r.intn(2000), 2}, rat2{r.rangeInt(-1000, 1000), 1}} }
+	}
 	for k := r.intn(4); k > 0; k-- {
 		c := mContour{start: pt()}
 		cur := c.start
@@ -539,8 +544,17 @@ func (mf *modelFont) renderParts(r *rng) (*renderFont, renderLayout) {
 	if mf.forceFormat != "" {
 		l.Format = mf.forceFormat
 	}
+	// every sixth layout: lead bytes whose first cipher byte is one of the bytes a sloppy white-space test would take
+	// for white space or a delimiter (NUL, form feed, vertical tab, 0x85, 0xa0, '%', '('); all are legal first bytes
+	wantFirst := -1
+	if r.chance(1, 6) {
+		wantFirst = pick(r, []int{0x00, 0x0c, 0x0b, 0x85, 0xa0, '%', '(', 0x1c, 0x7f, 0xff})
+	}
 	for {
 		l.IV = [4]byte{byte(r.intn(256)), byte(r.intn(256)), byte(r.intn(256)), byte(r.intn(256))}
+		if wantFirst >= 0 {
+			l.IV[0] = byte(wantFirst) ^ byte(55665>>8) // first cipher byte = plain ^ (R >> 8)
+		}
 		// a legal prefix for binary eexec: the first cipher byte is not white space and
 		// the first four cipher bytes are not all hex digits
 		c := cipherEncrypt(55665, l.IV[:])
